@@ -140,6 +140,63 @@ class Gen:
         return sx(["case", cid, ["cfg", ["nk", nk], ["ni", ni], ["nf", 3], ["nfam", 3]],
                    ["ival"] + ival, ["idur"] + idur, ["prog"] + nodes, ["hist"] + hist])
 
+    def static_low(self, cid):
+        """Profile of the CFetch-level trace replay (hook H10): what CFetch2 models exactly —
+        static call lists (literal keys, every call unconditional, no callee twice in one body,
+        every body reads an input so that no memo gets a higher durability), LOW durabilities
+        only.  Same history shape as `acyclic`."""
+        r = self.r
+        nk = r.randint(3, 4 if self.size == "quick" else 5)
+        ni = nk
+        fam_order = {0: 0, 2: 1} if r.random() < 0.5 else {0: 1, 2: 0}
+        rank = lambda f, k: fam_order[f] * nk + k
+        allk = [(f, k) for f in FAMS for k in range(nk)]
+        nodes = []
+        for (f, k) in allk:
+            lower = [x for x in allk if rank(*x) < rank(f, k)]
+            hubs = sorted(lower, key=lambda x: rank(*x))[:3]
+            cal = []
+            for _ in range(r.choice([0, 1, 1, 2, 2, 3])):
+                if not lower:
+                    break
+                c = r.choice(hubs) if r.random() < 0.5 else r.choice(lower)
+                if c not in cal:
+                    cal.append(c)
+            e = ["in", r.randrange(ni), r.randrange(3)]
+            if r.random() < 0.4:
+                e = ["op", r.choice(OPS), e, ["lit", r.choice([0, 1, 2, 3])]]
+            for c in cal:
+                ce = ["call", c[0], ["lit", c[1]]]
+                if r.random() < 0.3:
+                    ce = ["op", r.choice(OPS), ce, ["in", r.randrange(ni), r.randrange(3)]]
+                e = ["op", r.choice(OPS), e, ce] if r.random() < 0.5 else ["op", r.choice(OPS), ce, e]
+            nodes.append(["node", f, k, e])
+        ival = [[i, f, r.choice([0, 1, 2, 3])] for i in range(ni) for f in range(3)]
+        top_fam = max(FAMS, key=lambda f: fam_order[f])
+        hot = [(top_fam, k) for k in range(nk)][-3:] + [(min(FAMS, key=lambda f: fam_order[f]), nk - 1)]
+        hist = []
+        rounds = r.randint(2, 3 if self.size == "quick" else 5)
+        for rd in range(rounds):
+            threads = []
+            for _ in range(r.randint(2, 4)):
+                gets = []
+                for _ in range(r.randint(1, 3)):
+                    f, k = r.choice(hot) if r.random() < 0.7 else r.choice(allk)
+                    gets.append(["get", f, k])
+                threads.append(["T"] + gets)
+            hist.append(["par"] + threads)
+            if r.random() < 0.3:
+                f, k = r.choice(allk)
+                hist.append(["get", f, k])
+            if rd + 1 < rounds:
+                for _ in range(r.choice([1, 1, 2])):
+                    if r.random() < 0.12:
+                        hist.append(["synth", 0])
+                    else:
+                        hist.append(["set", r.randrange(ni), r.randrange(3), r.choice([0, 1, 2, 3])])
+        return sx(["case", cid, ["cfg", ["nk", nk], ["ni", ni], ["nf", 3], ["nfam", 3]],
+                   ["ival"] + ival, ["idur"], ["prog"] + nodes, ["hist"] + hist])
+
     def cross_cycles(self, cid):
         """a <-> b (optionally through a third node) guarded by an input; entered from both ends on
         two threads, a third thread reads something unrelated or joins the cycle; then the cycle
@@ -217,7 +274,7 @@ class Gen:
 def generate(seed, profile, n, size, prefix="p"):
     rng = random.Random(f"{seed}/par/{profile}/{size}")
     g = Gen(rng, size)
-    f = g.acyclic if profile == "acyclic" else g.cross_cycles
+    f = {"acyclic": g.acyclic, "static-low": g.static_low}.get(profile, g.cross_cycles)
     return [f(f"{prefix}{i}") for i in range(n)]
 
 
@@ -355,7 +412,7 @@ def parse_harness(text):
 
 
 def run_harness(cases, harness_bin, iters, sched, seed, trace_dir=None, trace_cap=10, shards=6,
-                pct_depth=3, max_steps=200000, timeout=3000):
+                pct_depth=3, max_steps=200000, timeout=3000, fetch_trace=False):
     """Run par_harness over the cases (sharded over processes). Returns the parsed output."""
     os.makedirs(os.path.join(common.BUILD, "cases"), exist_ok=True)
     tmpd = tempfile.mkdtemp(prefix="par", dir=os.path.join(common.BUILD, "cases"))
@@ -369,6 +426,8 @@ def run_harness(cases, harness_bin, iters, sched, seed, trace_dir=None, trace_ca
                "--pct-depth", str(pct_depth), "--max-steps", str(max_steps), "--trace-cap", str(trace_cap)]
         if trace_dir:
             cmd += ["--trace-dir", trace_dir]
+        if fetch_trace:
+            cmd += ["--fetch-trace"]      # hook H10 records + harness notes in the trace
         procs.append(subprocess.Popen(cmd, stdout=subprocess.PIPE, stderr=subprocess.DEVNULL, text=True))
     out = {}
     hung = False
